@@ -430,9 +430,9 @@ func ExpectedText(b Beh, msg string) string {
 	case BFail:
 		return "(*T).Fail() called"
 	case BFatalA, BCleanupSkipThenFatal, BCleanupRejectThenFatal, BErrorfThenFatalA:
-		return "site A: " + msg
+		return "site A (100%, %d %v): " + msg
 	case BCleanupSkipThenPanic, BCleanupRejectThenPanic:
-		return "boom " + msg
+		return "boom %v 5% " + msg
 	case BFatalB:
 		return "site B: " + msg
 	case BFailNowC, BFailNowD:
@@ -442,7 +442,7 @@ func ExpectedText(b Beh, msg string) string {
 	case BFatal:
 		return "fatal:"
 	case BPanicStr:
-		return "boom " + msg
+		return "boom %v 5% " + msg
 	case BPanicErr:
 		return "boom error " + msg
 	case BPanicStruct:
